@@ -148,6 +148,27 @@ func (s *Sim) Pick(n int) int {
 	return s.Rng.Intn(n)
 }
 
+// UserCode models application code inside a callback (hook, promise) taking
+// time: with the plan's probabilities it gives up the processor (everything
+// else runnable goes first) or sleeps for a short simulated time (everything
+// else proceeds, frames are delivered). Callbacks that take time are legal
+// and are where overlapping internal work meets the callback's caller.
+func (s *Sim) UserCode() {
+	y, sl := s.P.Knob("cb_yield_pct", 0), s.P.Knob("cb_sleep_pct", 0)
+	if y == 0 && sl == 0 {
+		return
+	}
+	x := int64(s.Pick(100))
+	switch {
+	case x < y:
+		s.Count("cb.yields", 1)
+		runtime.Gosched()
+	case x < y+sl:
+		s.Count("cb.sleeps", 1)
+		time.Sleep(time.Duration(50+s.Pick(int(s.P.Knob("cb_sleep_us_max", 3000)))) * time.Microsecond)
+	}
+}
+
 // Seq returns the next global event sequence number.
 func (s *Sim) Seq() uint64 { return s.seq.Add(1) }
 
